@@ -1,10 +1,15 @@
-#!/bin/sh
-# usage: try_mutant.sh <patch.diff> <check id> [more check ids...]  -- apply to /repo, run quick checks, always revert
-p="$1"; shift
-git -C /repo apply "$p" || exit 2
+#!/bin/bash
+# usage: try_mutant.sh <patch.diff> <check id> [more ids...] [-- extra check args]
+# Runs the quick checks against a scratch worktree of /repo HEAD with the patch applied (VERIF_REPO points the
+# harness at it), so /repo itself is never touched and several people can do this at the same time.
+# (The lead additionally confirms every seed with the literal procedure: git -C /repo apply; ./check; git checkout.)
+p="$(readlink -f "$1")"; shift
+wt=$(mktemp -d /tmp/mutwt.XXXXXX); rmdir "$wt"
+git -C /repo worktree add --detach "$wt" HEAD >/dev/null 2>&1 || { echo "cannot create worktree"; exit 2; }
+trap 'git -C /repo worktree remove --force "$wt" >/dev/null 2>&1; rm -rf "$wt"' EXIT
+git -C "$wt" apply "$p" || { echo "patch does not apply"; exit 2; }
+rc=0
 for id in "$@"; do
   echo "== $id on mutant $p"
-  /verif/check "$id" 2>&1 | grep -E "^(OK|VIOLATION|KNOWN|MACHINERY|  )" | head -8
+  VERIF_REPO="$wt" VERIF_EVIDENCE_DIR="$wt/.evidence" /verif/check "$id" 2>&1 | grep -E "^(OK|VIOLATION|KNOWN|MACHINERY|  )" | cut -c1-400 | head -12
 done
-git -C /repo checkout -- . 
-git -C /repo status --short | grep -v egg-info
